@@ -11,6 +11,7 @@ import (
 	"os"
 	"strings"
 
+	"github.com/trajectoryjp/multidimensional-radix-tree/src/tree"
 	"github.com/trajectoryjp/spatial_id_go/v4/detector"
 
 	. "verif/harness/gen"
@@ -80,19 +81,179 @@ func callBoth(a []w.Val) w.Val {
 	return out
 }
 
-// OverlapSequence([[fn, a, b], ...]): the calls performed back to back in one invocation
+// OverlapSequence([[fn, a, b], ...]): the calls performed back to back in one invocation.
+// The shrinker may propose argument vectors that are no longer well-shaped calls (a dropped field); those are answered with Nil, which the
+// dispatch entry refuses as "not a case".
 func callSeq(a []w.Val) w.Val {
-	calls := w.AsList(a[0])
+	calls, ok := a[0].(w.List)
+	if !ok {
+		return w.Nil{}
+	}
 	out := make(w.List, 0, len(calls))
 	for _, c := range calls {
-		p := w.AsList(c)
-		f, ok := binary[w.AsStr(p[0])]
-		if !ok {
-			panic("harness: unknown function in sequence")
+		p, ok := c.(w.List)
+		if !ok || len(p) != 3 {
+			return w.Nil{}
+		}
+		name, ok := p[0].(w.Str)
+		f, known := binary[string(name)]
+		if !ok || !known {
+			return w.Nil{}
+		}
+		for _, x := range p[1:] {
+			_, isStr := x.(w.Str)
+			if isStr != (name == "CheckExtendedSpatialIdsOverlap" || name == "CheckSpatialIdsOverlap") {
+				return w.Nil{}
+			}
+			if l, isList := x.(w.List); isList {
+				for _, e := range l {
+					if _, es := e.(w.Str); !es {
+						return w.Nil{}
+					}
+				}
+			}
 		}
 		out = append(out, f(p[1], p[2]))
 	}
 	return out
+}
+
+// RadixTree(keys, queries): the third-party library by itself — Append every key (zoom, f', x, y), then IsOverlap for every query.
+// Ill-shaped arguments (the shrinker can drop a field) and an empty key list (the library indexes a nil slice) are answered with Nil.
+func key4(v w.Val) (z, f, x, y int64, ok bool) {
+	l, isList := v.(w.List)
+	if !isList || len(l) != 4 {
+		return
+	}
+	var n [4]int64
+	for i, e := range l {
+		iv, isInt := e.(w.Int)
+		if !isInt || !iv.V.IsInt64() {
+			return
+		}
+		n[i] = iv.V.Int64()
+	}
+	if n[0] < 0 || n[0] > 62 {
+		return
+	}
+	return n[0], n[1], n[2], n[3], true
+}
+func callTree(a []w.Val) w.Val {
+	keys, ok1 := a[0].(w.List)
+	qs, ok2 := a[1].(w.List)
+	if !ok1 || !ok2 || len(keys) == 0 {
+		return w.Nil{}
+	}
+	tr := tree.CreateTree(tree.Create3DTable())
+	for _, k := range keys {
+		z, f, x, y, ok := key4(k)
+		if !ok {
+			return w.Nil{}
+		}
+		tr.Append(tree.Indexs{f, x, y}, tree.ZoomSetLevel(z), "v")
+	}
+	out := make(w.List, 0, len(qs))
+	for _, q := range qs {
+		z, f, x, y, ok := key4(q)
+		if !ok {
+			return w.Nil{}
+		}
+		out = append(out, w.B(tr.IsOverlap(tree.Indexs{f, x, y}, tree.ZoomSetLevel(z))))
+	}
+	return out
+}
+
+// keys and queries for the library by itself: nested keys in both orders, the root key (zoom 0), zooms up to 60, queries derived from keys
+func treeCase(g *Gen, tags *[]string) (w.Val, w.Val) {
+	type k4 struct{ z, f, x, y int64 }
+	rk := func() k4 {
+		z := g.Zoom()
+		if g.Chance(0.08) {
+			z = 36 + g.Int63n(25)
+			*tags = append(*tags, "zoom>35")
+		}
+		c := func() int64 {
+			switch g.Intn(5) {
+			case 0:
+				return 0
+			case 1:
+				return pow2(z) - 1
+			}
+			return g.Int63n(pow2(z))
+		}
+		return k4{z, c(), c(), c()}
+	}
+	dk := func(a k4) k4 { // ancestor, descendant (mostly not the first child) or a perturbed relative
+		var b k4
+		d := zdiff(g)
+		if g.Chance(0.5) {
+			if a.z+d > 60 {
+				d = 60 - a.z
+			}
+			n := pow2(d)
+			b = k4{a.z + d, a.f<<uint(d) + g.Int63n(n), a.x<<uint(d) + g.Int63n(n), a.y<<uint(d) + g.Int63n(n)}
+		} else {
+			if d > a.z {
+				d = a.z
+			}
+			b = k4{a.z - d, a.f >> uint(d), a.x >> uint(d), a.y >> uint(d)}
+		}
+		if g.Chance(0.3) && b.z > 0 {
+			bit := pow2(g.Int63n(b.z))
+			switch g.Intn(3) {
+			case 0:
+				b.f ^= bit
+			case 1:
+				b.x ^= bit
+			default:
+				b.y ^= bit
+			}
+		}
+		return b
+	}
+	var keys, qs []k4
+	nk, nq := 1+g.Intn(8), 1+g.Intn(6)
+	for len(keys) < nk {
+		if len(keys) > 0 && g.Chance(0.4) {
+			keys = append(keys, dk(keys[g.Intn(len(keys))]))
+		} else {
+			keys = append(keys, rk())
+		}
+	}
+	if g.Chance(0.03) {
+		keys[g.Intn(len(keys))] = k4{0, 0, 0, 0}
+		*tags = append(*tags, "root-key")
+	}
+	for len(qs) < nq {
+		if g.Chance(0.7) {
+			qs = append(qs, dk(keys[g.Intn(len(keys))]))
+		} else {
+			qs = append(qs, rk())
+		}
+	}
+	if g.Chance(0.1) { // coordinates outside [0, 2^zoom): the library masks the bits above the zoom
+		*tags = append(*tags, "coord-out-of-range")
+		p := &qs[g.Intn(len(qs))]
+		if g.Chance(0.5) {
+			p = &keys[g.Intn(len(keys))]
+		}
+		switch g.Intn(3) {
+		case 0:
+			p.f = -p.f - 1
+		case 1:
+			p.x += pow2(p.z) * (1 + g.Int63n(3))
+		default:
+			p.y = -1 - g.Int63n(1<<20)
+		}
+	}
+	enc := func(l []k4) w.Val {
+		r := make(w.List, len(l))
+		for i, k := range l {
+			r[i] = w.Ints([]int64{k.z, k.f, k.x, k.y})
+		}
+		return r
+	}
+	return enc(keys), enc(qs)
 }
 
 func callAttrs(a []w.Val) w.Val {
@@ -586,9 +747,51 @@ func spoil(g *Gen, s1, s2 []string, near vox, sid bool) ([]string, []string) {
 }
 
 // ---------------------------------------------------------------------------------------------------------------------------------
+// small scopes, exhaustively: every pair of extended IDs with h <= 1 and v <= 1 (thorough: v <= 2) through both argument orders and both
+// implementations; every pair of spatial IDs with zoom <= 1 (thorough: <= 2), inside and outside the altitude domain
+
+func exhaustive(thorough bool, emit func(fn string, tags []string, triv bool, args ...w.Val)) {
+	vmax, zmax := int64(1), int64(1)
+	if thorough {
+		vmax, zmax = 2, 2
+	}
+	var es []vox
+	for h := int64(0); h <= 1; h++ {
+		for x := int64(0); x < pow2(h); x++ {
+			for y := int64(0); y < pow2(h); y++ {
+				for v := int64(0); v <= vmax; v++ {
+					for f := -pow2(v); f < pow2(v); f++ {
+						es = append(es, vox{h, x, y, v, f})
+					}
+				}
+			}
+		}
+	}
+	tags := []string{"exhaustive"}
+	for _, a := range es {
+		for _, b := range es {
+			emit("OverlapBoth", tags, false, w.Strs([]string{a.ext()}), w.Strs([]string{b.ext()}))
+		}
+	}
+	var ss []vox
+	for z := int64(0); z <= zmax; z++ {
+		for x := int64(0); x < pow2(z); x++ {
+			for y := int64(0); y < pow2(z); y++ {
+				for f := -pow2(z); f < pow2(z); f++ {
+					ss = append(ss, vox{z, x, y, z, f})
+				}
+			}
+		}
+	}
+	for _, a := range ss {
+		for _, b := range ss {
+			emit("CheckSpatialIdsOverlap", tags, false, w.S(a.sid()), w.S(b.sid()))
+		}
+	}
+}
 
 func init() {
-	Scale["C05"] = 14000
+	Scale["C05"] = 30000
 	Registry["C05"] = func(r *run.Runner, g *Gen, n int) {
 		r.Register(
 			&run.Fn{Name: "CheckExtendedSpatialIdsOverlap", Invoke: func(a []w.Val) w.Val { return callExtPair(a[0], a[1]) }},
@@ -598,10 +801,15 @@ func init() {
 			&run.Fn{Name: "getSpatialIdAttrs", Invoke: callAttrs},
 			&run.Fn{Name: "OverlapBoth", Invoke: callBoth},
 			&run.Fn{Name: "OverlapSequence", Invoke: callSeq},
+			&run.Fn{Name: "RadixTree", Invoke: callTree},
 		)
+		if n == 0 {
+			return
+		}
 		emit := func(fn string, tags []string, triv bool, args ...w.Val) {
 			r.Run(run.Case{Prop: "C05", Fn: fn, Tags: tags, Trivial: triv, Args: args})
 		}
+		exhaustive(g.Tier == "thorough", emit)
 		// fixed witnesses first: the inputs on which independently seeded changes differ, and the repaired defects D1/D4/D5/D6
 		fixedExt := [][2]string{{"16/58209/25805/17/3", "16/58209/25805/16/1"}, {"4/14/6/25/101", "5/28/12/24/50"}, {"10/909/403/30/-3", "10/909/403/28/-1"},
 			{"1/0/0/2/-1", "1/0/0/1/0"}, {"1/0/0/2/-1", "1/0/0/1/-1"}, {"0/0/0/0/0", "35/34359738367/0/35/-34359738368"}, {"0/0/0/0/-1", "35/0/0/35/-1"}}
@@ -693,6 +901,17 @@ func init() {
 					a.h = hostileZoom(g)
 					sa = a.sid()
 					tags = []string{"hostile-zoom"}
+				} else if g.Chance(0.02) { // x / y outside [0, 2^z): not a valid ID; the detector does not check them and the tree masks the bits
+					switch g.Intn(3) {
+					case 0:
+						a.x = -a.x - 1
+					case 1:
+						a.y += pow2(a.h) * (1 + g.Int63n(3))
+					default:
+						a.x, a.y = a.x+pow2(a.h), -1-g.Int63n(1<<20)
+					}
+					sa = a.sid()
+					tags = []string{"xy-out-of-range"}
 				}
 				if g.Chance(0.5) {
 					sa, sb = sb, sa
@@ -723,7 +942,7 @@ func init() {
 				}
 				tags = append(tags, Tag("len=%d,%d", len(s1), len(s2)))
 				emit("CheckSpatialIdsArrayOverlap", tags, len(s1) == 0 || len(s2) == 0, w.Strs(s1), w.Strs(s2))
-			case k < 84: // both argument orders, both implementations
+			case k < 82: // both argument orders, both implementations
 				var l1, l2 []vox
 				hv := g.Chance(0.6)
 				if hv && g.Chance(0.3) {
@@ -746,7 +965,10 @@ func init() {
 				}
 				tags = append(tags, Tag("len=%d,%d", len(s1), len(s2)))
 				emit("OverlapBoth", tags, len(s1) == 0 || len(s2) == 0, w.Strs(s1), w.Strs(s2))
-			case k < 88: // the parser hook
+			case k >= 85 && k < 88: // the radix-tree library by itself
+				ks, qs := treeCase(g, &tags)
+				emit("RadixTree", append(tags, "tree"), false, ks, qs)
+			case k < 85: // the parser hook
 				a := randSVox(g)
 				s := a.sid()
 				tags = []string{"well-formed"}
@@ -807,7 +1029,22 @@ func sequence(g *Gen) w.Val {
 		if len(l2) > 0 {
 			more[len(more)-1] = deriveSVox(g, l2[g.Intn(len(l2))], &t)
 		}
-		for _, p := range [][2][]vox{{l1, l2}, {p1, l2}, {more, l2}, {nil, l2}, {l1, l2}} {
+		// same length and same first member, another member replaced (a cache keyed by part of the first list)
+		alt := append([]vox{}, l1...)
+		if len(alt) < 2 {
+			alt = append(alt, randSVox(g))
+			l1 = append(l1, randSVox(g))
+			if len(alt) < 2 {
+				alt = append(alt, randSVox(g))
+				l1 = append(l1, randSVox(g))
+			}
+		}
+		if len(l2) > 0 && g.Chance(0.8) {
+			alt[1+g.Intn(len(alt)-1)] = deriveSVox(g, l2[g.Intn(len(l2))], &t)
+		} else {
+			alt[1+g.Intn(len(alt)-1)] = randSVox(g)
+		}
+		for _, p := range [][2][]vox{{l1, l2}, {alt, l2}, {p1, l2}, {more, l2}, {nil, l2}, {l1, l2}} {
 			calls = append(calls, call("CheckSpatialIdsArrayOverlap", w.Strs(sids(p[0])), w.Strs(sids(p[1]))))
 		}
 	case 3: // extended array: same lists permuted, swapped, one member's zoom changed
@@ -819,7 +1056,15 @@ func sequence(g *Gen) w.Val {
 			i := g.Intn(len(c2))
 			c2[i].v, c2[i].f = moveAxis(g, c2[i].v, c2[i].f, g.Pick(1, -1, 3, -3))
 		}
-		for _, p := range [][2][]vox{{l1, l2}, {p1, l2}, {l1, c2}, {l2, l1}, {l1, l2}} {
+		alt := append([]vox{}, l1...)
+		if len(alt) >= 2 {
+			if len(l2) > 0 && g.Chance(0.8) {
+				alt[1+g.Intn(len(alt)-1)] = deriveVox(g, l2[g.Intn(len(l2))], &t)
+			} else {
+				alt[1+g.Intn(len(alt)-1)] = randVox(g)
+			}
+		}
+		for _, p := range [][2][]vox{{l1, l2}, {alt, l2}, {p1, l2}, {l1, c2}, {l2, l1}, {l1, l2}} {
 			calls = append(calls, call("CheckExtendedSpatialIdsArrayOverlap", w.Strs(exts(p[0])), w.Strs(exts(p[1]))))
 		}
 	case 4: // the same voxels through both implementations, alternating
@@ -840,7 +1085,14 @@ func sequence(g *Gen) w.Val {
 		}
 		o := outOfDomainSVox(g)
 		o.x, o.y = o.x&(pow2(o.h)-1), o.y&(pow2(o.h)-1)
-		for _, p := range [][2]vox{{a, b}, {a, b2}, {a, o}, {a, b}, {b, a}} {
+		// the same vertical index at a neighbouring zoom (a conversion cache keyed by the index alone)
+		b3 := b
+		if b.h < 35 && g.Chance(0.5) {
+			b3.h, b3.v, b3.x, b3.y = b.h+1, b.h+1, b.x<<1+g.Int63n(2), b.y<<1+g.Int63n(2)
+		} else if b.h > 1 && b.f >= -pow2(b.h-2) && b.f < pow2(b.h-2) {
+			b3.h, b3.v, b3.x, b3.y = b.h-1, b.h-1, b.x>>1, b.y>>1
+		}
+		for _, p := range [][2]vox{{a, b}, {a, b3}, {a, b2}, {a, o}, {a, b}, {b, a}, {b3, a}} {
 			calls = append(calls, call("CheckSpatialIdsOverlap", w.S(p[0].sid()), w.S(p[1].sid())))
 		}
 	}
